@@ -87,6 +87,7 @@ type StoreSession struct {
 	inflight         string // kind of the round begun and not yet finished
 	pend             bool
 	closedColl       bool
+	roNotifies       int // asynchronous merger notifications sent to the current (read-only) collection
 	roRemovedFrom    int
 	nothingCommitted bool // the model's store has never published a footer
 }
@@ -152,6 +153,7 @@ func (s *StoreSession) openColl() error {
 		s.sched.Bind(c, s.store)
 		s.coll = c
 		s.closedColl = false
+		s.roNotifies = 0
 		if s.ro {
 			return nil
 		}
@@ -184,6 +186,7 @@ func (s *StoreSession) openColl() error {
 	s.sched.Bind(c, s.store)
 	s.coll = c
 	s.closedColl = false
+	s.roNotifies = 0
 	if err := c.Start(); err != nil {
 		return err
 	}
